@@ -1,9 +1,21 @@
 (* C18 statements: the vectored appends equal the contiguous ones, their copies stay inside the claimed range,
    the loops of the unrepaired repository do not, and the oracle's equality part holds on the model's own results. *)
-Require Import V.Base.MachineInt V.Generated.GenConsts V.Model.Descriptor V.Model.LogBase V.Model.LogDelta V.Model.Appender
-               V.Model.ExclAppender V.Model.Publication
-               V.Proofs.DescriptorProofs V.Proofs.AppenderProofs V.Proofs.PublicationProofs V.Proofs.BulkProofs V.Proofs.C04Proofs
-               V.Proofs.C04Statements V.Oracle.C04Oracle V.Oracle.C18Oracle.
+Require Import V.Base.MachineInt.
+Require Import V.Generated.GenConsts.
+Require Import V.Model.Descriptor.
+Require Import V.Model.LogBase.
+Require Import V.Model.LogDelta.
+Require Import V.Model.Appender.
+Require Import V.Model.ExclAppender.
+Require Import V.Model.Publication.
+Require Import V.Proofs.DescriptorProofs.
+Require Import V.Proofs.AppenderProofs.
+Require Import V.Proofs.PublicationProofs.
+Require Import V.Proofs.BulkProofs.
+Require Import V.Proofs.C04Proofs.
+Require Import V.Proofs.C04Statements.
+Require Import V.Oracle.C04Oracle.
+Require Import V.Oracle.C18Oracle.
 From Coq Require Import ZifyBool.
 Open Scope Z_scope.
 
